@@ -29,7 +29,9 @@ import (
 )
 
 const prop = "C16"
-const key = "K"
+// key and remoteName are what the case at hand uses for the cache key and for the directory of the remote storage (cases run
+// one after the other within a process; the sequences vary them, everything else uses the defaults)
+var key, remoteName = "K", "remote"
 
 func TestMain(m *testing.M) { ev.Main(m) }
 
@@ -114,7 +116,7 @@ func newEnv(backend string, kind string, versions []Version) *env {
 	} else {
 		e.kind = sharedcache.CacheMutable
 	}
-	e.remote = e.box.Path("remote")
+	e.remote = e.box.Path(remoteName)
 	_ = e.box.Raw.MkdirAll(e.remote, 0o755)
 	for _, v := range versions {
 		d := e.box.Path("src", fmt.Sprintf("v%d", v.ID))
@@ -506,6 +508,9 @@ type SeqOp struct {
 }
 
 type SeqCase struct {
+	// Key / Remote: spelling of the cache key and of the remote directory (default "K" / "remote")
+	Key      string    `json:"key,omitempty"`
+	Remote   string    `json:"remote_dir,omitempty"`
 	Backend  string    `json:"backend"`
 	Cache    string    `json:"cache"`
 	Versions []Version `json:"versions"`
@@ -513,6 +518,13 @@ type SeqCase struct {
 }
 
 func checkSeq(t ev.T, test string, c SeqCase) {
+	if c.Key != "" {
+		key = c.Key
+	}
+	if c.Remote != "" {
+		remoteName = c.Remote
+	}
+	defer func() { key, remoteName = "K", "remote" }()
 	e := newEnv(c.Backend, c.Cache, c.Versions)
 	defer e.box.Close()
 	e.box.Backend.KeepOps(false)
@@ -636,6 +648,9 @@ func genSeq(t *rapid.T) SeqCase {
 	if c.Cache == "mutable" {
 		c.Backend = "os" // see TestFaultEnumeration
 	}
+	// keys and storage paths are free text: they may well contain what the implementation uses as markers
+	c.Key = rapid.SampledFrom([]string{"", "", "v1.partial", "a.part", "k.hash", "cache.zip", "x.part.y", "lockfile-K", "K L"}).Draw(t, "key")
+	c.Remote = rapid.SampledFrom([]string{"", "", "", "remote.parts", "store.hash", "a.part"}).Draw(t, "remote-dir")
 	n := rapid.IntRange(2, 10).Draw(t, "ops")
 	for i := 0; i < n; i++ {
 		op := SeqOp{Op: rapid.SampledFrom([]string{"store", "store", "fetch", "fetch", "fetch", "clean", "remove"}).Draw(t, fmt.Sprintf("op%d", i)), Client: rapid.IntRange(0, 3).Draw(t, fmt.Sprintf("cl%d", i))}
